@@ -186,6 +186,8 @@ def run_A(scn: Dict[str, Any], on, plugins=()) -> Dict[str, Any]:
             if isinstance(settings_arg, str) and os.path.exists(settings_arg):
                 os.remove(settings_arg)
         for c in classes.values():
+            if c.__name__ == "LateMarket" and scn.get("late_class"):
+                continue
             runner.class_register(c)
         if scn.get("register_clash"):
             from pams.agents.fcn_agent import FCNAgent
@@ -194,7 +196,19 @@ def run_A(scn: Dict[str, Any], on, plugins=()) -> Dict[str, Any]:
             runner.class_register(type(scn["register_clash"], (base,), {}))
         res["phase"] = "setup"
         mon.ext["cfg_pristine"] = pristine
-        runner._setup()
+        if scn.get("late_class"):
+            # the user forgot to register a class: set-up is refused before anything exists; the class is then
+            # registered and set-up repeated on the same runner
+            try:
+                runner._setup()
+            except AttributeError:
+                mon.probe("setup_refused_then_repeated")
+                runner.class_register(classes["LateMarket"])
+                runner._setup()
+            else:
+                mon.viol("C18", "hostile_config_accepted", {"kind": "class_missing"})
+        else:
+            runner._setup()
     except Exception as e:
         res["error"] = classify_exception(e)
         if res["error"]["in_harness"]:
